@@ -200,6 +200,9 @@ class CallbackSpec:
     def plain(self, outcome):
         return [i for i, tb in enumerate(self.tables) if tb.outcome == outcome and not tb.cb_fn]
 
+    def with_cb(self):
+        return [i for i, tb in enumerate(self.tables) if tb.cb_fn]
+
     def plain_fields(self, vi, ss, ee):
         v = self.d.variants[vi]
         if v.field is None:
@@ -439,13 +442,25 @@ def explore_step(prog, d, tables, N, start, *, partial=False, props=None, is_rel
                     if kind != 'none' and conc(cb[5]) != ee:
                         res.fail(ex, 'C13', f'item after callback ends at {ee} but the callback left the lexer at {cb[5]}')
                 elif kind == 'skip':
+                    # no pattern callback ran in this attempt: the winning pattern must not be one that carries a callback
+                    # ("a callback attached to a pattern runs once for each match of that pattern that wins selection")
+                    if cbspec.with_cb():
+                        prove('C13', f'skip {ss}..{ee}: no callback ran although the winning pattern carries one',
+                              s_not(s_and(R.longest_ok(t, ee), R.winner_in(t, ee, cbspec.with_cb()))))
                     # a skipped region that no skip pattern matches is also a hole in C03's tiling ("the gaps between
                     # items are exactly the skipped regions")
                     prove(('C01', 'C03'), f'skip {ss}..{ee} is not the longest match from {t}', R.longest_ok(t, ee))
                     prove(('C01', 'C03'), f'skip {ss}..{ee}: a skip pattern is not the highest-priority match',
                           R.winner_in(t, ee, cbspec.plain(('skip',))))
                 elif kind == 'ok':
+                    # "when no pattern matches any non-empty prefix at p, the lexer yields exactly one Err" (C02): an item
+                    # produced where nothing matches contradicts C02 as well as C01
+                    prove(('C02', 'C01'), f'token {ss}..{ee} although no pattern matches any non-empty prefix from {t}',
+                          s_not(R.no_match(t)))
                     prove('C01', f'token {ss}..{ee} is not the longest match from {t}', R.longest_ok(t, ee))
+                    if cbspec.with_cb():
+                        prove('C13', f'token {ss}..{ee}: no callback ran although the winning pattern carries one',
+                              s_not(s_and(R.longest_ok(t, ee), R.winner_in(t, ee, cbspec.with_cb()))))
                     vi = item[1]
                     prove('C01', f'token {ss}..{ee}: variant #{vi} is not the highest-priority match',
                           R.winner_in(t, ee, cbspec.plain(('variant', vi))))
@@ -455,7 +470,8 @@ def explore_step(prog, d, tables, N, start, *, partial=False, props=None, is_rel
                                             f'got {item[2]}')
                 elif kind == 'err':
                     if True:
-                        prove('C02', f'Err at {ss}..{ee} although some pattern matches a non-empty prefix',
+                        # an Err where a pattern matches is a missing token (C01) as much as a wrong error (C02)
+                        prove(('C02', 'C01'), f'Err at {ss}..{ee} although some pattern matches a non-empty prefix',
                               R.no_match(t))
                         # end = boundary_up(max(dead_at, t+1))
                         alts = []
